@@ -652,12 +652,12 @@ class BinaryOp(Expr):
         if ltype == rtype == Type.STRING and self.op != Operator.ADD:
             return Type.UNKNOWN
 
-        if self.op == Operator.MOD:
+        if self.op in (Operator.MOD, Operator.INTDIV):
             if not ltype.is_numeric or not rtype.is_numeric:
                 return Type.UNKNOWN
 
-            # MOD always coerces its args to an integer and then
-            # calculates the result which is always an integral value.
+            # MOD and \ always coerce their args to an integer and then
+            # calculate the result which is always an integral value.
             if ltype == Type.INTEGER and rtype == Type.INTEGER:
                 return Type.INTEGER
             else:
@@ -703,27 +703,61 @@ class BinaryOp(Expr):
                 'Attempting to evaluate binary operation on '
                 'non-primitive values')
 
+    @property
+    def operand_type(self):
+        """The type both operands are converted to before the operation
+        is performed (the code generator emits exactly these
+        conversions)."""
+
+        ltype = self.left.type
+        rtype = self.right.type
+        if self.op.is_comparison:
+            if ltype == rtype == Type.STRING:
+                return Type.STRING
+            for candidate in (Type.DOUBLE, Type.SINGLE, Type.LONG):
+                if ltype == candidate or rtype == candidate:
+                    return candidate
+            return Type.INTEGER
+        return self.type
+
     def _eval_numeric(self):
-        left = self.type.coerce(self.left.eval())
-        right = self.type.coerce(self.right.eval())
+        # Evaluate exactly the way the generated code would at run
+        # time: convert both operands to the operand type, perform the
+        # operation, and store the result in a cell of the result
+        # type. Anything that would be a run-time error raises
+        # OverflowError or ZeroDivisionError, which makes the folder
+        # leave the expression alone.
+
+        def convert(value, from_type, to_type):
+            value = from_type.coerce(value)
+            if to_type.is_integral and isinstance(value, float):
+                value = round(value)
+            if not to_type.can_hold(value):
+                raise OverflowError
+            return to_type.coerce(value)
 
         def qbool(x):
             return -1 if x else 0
 
-        def limit(x):
-            if not self.left.type.is_integral:
-                return x
+        def idiv(a, b):
+            result = abs(a) // abs(b)
+            return -result if (a < 0) != (b < 0) else result
 
-            c_type = {
-                Type.INTEGER: ctypes.c_short,
-                Type.LONG: ctypes.c_long,
-                Type.SINGLE: ctypes.c_float,
-                Type.DOUBLE: ctypes.c_double,
-            }[self.type]
-            result = c_type(x).value
-            if result != x:
+        def mod(a, b):
+            result = abs(a) % abs(b)
+            return -result if a < 0 else result
+
+        def power(a, b):
+            if isinstance(a, int) and abs(a) > 1 and b > 64:
+                raise OverflowError
+            result = a ** b
+            if isinstance(result, complex):
                 raise OverflowError
             return result
+
+        operand_type = self.operand_type
+        left = convert(self.left.eval(), self.left.type, operand_type)
+        right = convert(self.right.eval(), self.right.type, operand_type)
 
         result = {
             Operator.CMP_EQ: lambda a, b: qbool(a == b),
@@ -732,24 +766,47 @@ class BinaryOp(Expr):
             Operator.CMP_GT: lambda a, b: qbool(a > b),
             Operator.CMP_LE: lambda a, b: qbool(a <= b),
             Operator.CMP_GE: lambda a, b: qbool(a >= b),
-            Operator.AND: lambda a, b: limit(a & b),
-            Operator.OR: lambda a, b: limit(a | b),
-            Operator.XOR: lambda a, b: limit(a ^ b),
-            Operator.EQV: lambda a, b: limit(~(a ^ b)),
-            Operator.IMP: lambda a, b: limit(~a | b),
-            Operator.ADD: lambda a, b: limit(a + b),
-            Operator.SUB: lambda a, b: limit(a - b),
-            Operator.MUL: lambda a, b: limit(a * b),
-            Operator.DIV: lambda a, b: limit(a / b),
-            Operator.MOD: lambda a, b: limit(a % b),
-            Operator.INTDIV: lambda a, b: limit(a // b),
-            Operator.EXP: lambda a, b: limit(a ** b),
+            Operator.AND: lambda a, b: a & b,
+            Operator.OR: lambda a, b: a | b,
+            Operator.XOR: lambda a, b: a ^ b,
+            Operator.EQV: lambda a, b: ~(a ^ b),
+            Operator.IMP: lambda a, b: ~a | b,
+            Operator.ADD: lambda a, b: a + b,
+            Operator.SUB: lambda a, b: a - b,
+            Operator.MUL: lambda a, b: a * b,
+            Operator.DIV: lambda a, b: a / b,
+            Operator.MOD: mod,
+            Operator.INTDIV: idiv,
+            Operator.EXP: power,
         }[self.op](left, right)
 
-        return result
+        result_type = self.type
+        if result_type.is_integral and isinstance(result, float):
+            result = round(result)
+        if not result_type.can_hold(result):
+            raise OverflowError
+        return result_type.coerce(result)
 
     def _eval_string(self):
-        return self.left.eval() + self.right.eval()
+        left = self.left.eval()
+        right = self.right.eval()
+        if self.op == Operator.ADD:
+            return left + right
+
+        def qbool(x):
+            return -1 if x else 0
+
+        result = {
+            Operator.CMP_EQ: lambda a, b: qbool(a == b),
+            Operator.CMP_NE: lambda a, b: qbool(a != b),
+            Operator.CMP_LT: lambda a, b: qbool(a < b),
+            Operator.CMP_GT: lambda a, b: qbool(a > b),
+            Operator.CMP_LE: lambda a, b: qbool(a <= b),
+            Operator.CMP_GE: lambda a, b: qbool(a >= b),
+        }.get(self.op)
+        if result is None:
+            raise EvalError('Invalid operator for string operands')
+        return result(left, right)
 
     def _qb_mod(self, a, b):
         a = int(round(a))
@@ -790,9 +847,16 @@ class UnaryOp(Expr):
         if not self.arg.type.is_numeric:
             raise EvalError('Invalid operand for unary operator')
 
-        value = self.arg.eval()
+        # Same semantics as the generated code: NOT converts its
+        # operand to INTEGER/LONG first; the result must fit in a cell
+        # of the result type, otherwise (OverflowError) the expression
+        # is left to fail at run time.
+        value = self.arg.type.coerce(self.arg.eval())
         if self.op == Operator.NOT:
-            value = int(round(value))
+            if isinstance(value, float):
+                value = round(value)
+            if not self.type.can_hold(value):
+                raise OverflowError
             value = ~value
         elif self.op == Operator.NEG:
             value = -value
@@ -801,17 +865,9 @@ class UnaryOp(Expr):
         else:
             raise InternalError('Unknown unary operator')
 
-        if self.arg.type == Type.INTEGER:
-            max_positive_int = 2**15 - 1
-            max_negative_int = -2**15
-        else:
-            max_positive_int = 2**31 - 1
-            max_negative_int = -2**31
-
-        if value > max_positive_int or value < max_negative_int:
-            value = max_negative_int
-
-        return value
+        if not self.type.can_hold(value):
+            raise OverflowError
+        return self.type.coerce(value)
 
 
 class Lvalue(Expr):
